@@ -133,7 +133,14 @@ fn run_shard(exe: &str, id: &str, tier: Tier, shard: usize, nshards: usize, resu
     if let Some(r) = resume_after {
         cmd.arg("--resume-after").arg(r.to_string());
     }
-    cmd.stdout(Stdio::piped()).stderr(Stdio::inherit());
+    // worker stderr (std's abort messages) goes to a log file, not into the check's output
+    let errlog = std::fs::OpenOptions::new()
+        .create(true)
+        .append(true)
+        .open(format!("{}/hx/target/worker-stderr.log", verif_root()))
+        .map(Stdio::from)
+        .unwrap_or_else(|_| Stdio::null());
+    cmd.stdout(Stdio::piped()).stderr(errlog);
     let mut child = cmd.spawn().map_err(|e| format!("spawn worker: {}", e))?;
     let stdout = child.stdout.take().unwrap();
     let mut results = Vec::new();
@@ -376,6 +383,7 @@ pub fn run_check(check: &dyn Check, tier: Tier, exe: &str) -> RunOutcome {
     let _ = std::fs::create_dir_all(format!("{}/replays", verif_root()));
     let mut printed: HashSet<String> = HashSet::new();
     let mut nviol = 0;
+    let mut replayed = 0;
     for f in &fresh {
         // one replay file per (sig, cfg kind): the first (shortest) is kept
         let key = format!("{}|{}|{}", f["sig"].as_str().unwrap_or(""), f["cfg"]["kind"].as_str().unwrap_or(""), f["cfg"].to_string());
@@ -399,6 +407,23 @@ pub fn run_check(check: &dyn Check, tier: Tier, exe: &str) -> RunOutcome {
             "x": f.get("x").cloned().unwrap_or(Value::Null),
         });
         let _ = std::fs::write(&path, serde_json::to_string_pretty(&body).unwrap());
+        // determinism: the recorded case must fail again when replayed on its own, twice
+        if replayed < 8 && f["sig"] != "abort" {
+            replayed += 1;
+            for round in 0..2 {
+                match check.replay(&body) {
+                    Ok((true, _)) => {}
+                    Ok((false, _)) => {
+                        machinery.push(format!("violation {} did not reproduce on replay {} of {} (non-deterministic harness or environment)", path, round + 1, 2));
+                        break;
+                    }
+                    Err(e) => {
+                        machinery.push(format!("replay of {} failed: {}", path, e));
+                        break;
+                    }
+                }
+            }
+        }
         println!("VIOLATION property={} replay={}", id, path);
         println!("  # {} | {} | {} | {}", f["sig"].as_str().unwrap_or(""), f["cfg"].to_string(), f["history"].as_str().unwrap_or(""), f["detail"].as_str().unwrap_or(""));
     }
@@ -489,13 +514,13 @@ pub fn run_check(check: &dyn Check, tier: Tier, exe: &str) -> RunOutcome {
             work, min_work, outcomes.len(), min_outcomes
         ));
     }
-    if !fresh.is_empty() {
+    for m in &machinery {
+        println!("MACHINERY-ERROR: {}", m);
+    }
+    if !fresh.is_empty() && !machinery.iter().any(|m| m.contains("did not reproduce")) {
         return RunOutcome { exit: 1 };
     }
     if !machinery.is_empty() {
-        for m in &machinery {
-            println!("MACHINERY-ERROR: {}", m);
-        }
         return RunOutcome { exit: 2 };
     }
     RunOutcome { exit: 0 }
